@@ -97,8 +97,9 @@ func (p c02) Run(w *mon.Worker, idx int) mon.Result {
 	if doc.IsScalar() {
 		doc = ref.MapV(ref.KV{K: "a", V: doc})
 	}
-	law := []string{"put", "put", "getput", "putput", "update", "compound", "put", "sharing", "overwrite"}[idx%9]
+	law := []string{"put", "put", "getput", "putput", "update", "compound", "put", "sharing", "overwrite", "rhsread", "update"}[idx%11]
 	opts := gen.PathOpts{AllowCreate: law == "put" || law == "putput", AllowMulti: true, NoRoot: true}
+	opts.MultiIdx = (law == "update" || law == "put") && r.IntN(6) == 0
 	path := gen.RandomPath(r, doc, opts)
 	pstr := path.String()
 	v := gen.SimpleValue(r, 2)
@@ -243,6 +244,91 @@ func (p c02) Run(w *mon.Worker, idx int) mon.Result {
 		}
 		return hold("intermediate overwritten with the string")
 
+	case "rhsread":
+		// `p = E` where E only READS, through nulls, missing keys and one past the end of sequences:
+		// the result is the document with E's value at p and nothing else changed (E evaluated alone gives the value)
+		if terr != nil || len(targets) == 0 {
+			res.Nontrivial = false
+			return hold("not addressable")
+		}
+		ep := gen.RandomPath(r, doc, gen.PathOpts{NoRoot: true})
+		ets, eerr := ref.Resolve(doc, ep, false)
+		if eerr != nil || len(ets) != 1 {
+			res.Nontrivial = false
+			return hold("no single read location")
+		}
+		for _, t := range targets {
+			if ref.IsPrefix(t.Path, ets[0].Path) || ref.IsPrefix(ets[0].Path, t.Path) {
+				res.Nontrivial = false
+				return hold("read location overlaps the written one")
+			}
+		}
+		at, _ := doc.GetPath(ets[0].Path)
+		estr := ep.String()
+		kind := "null"
+		switch at.K {
+		case ref.Null:
+			estr += []string{"[0]", `["k"]`, ".k", "[1]", `["k"][0]`, ".k.j", "[0][1]"}[r.IntN(7)]
+		case ref.Seq:
+			kind = "seq"
+			estr += fmt.Sprintf("[%d]", len(at.A)+r.IntN(2)) // exactly one past the end, or two
+			if r.IntN(3) == 0 {
+				estr += []string{".k", "[0]", `["k"]`}[r.IntN(3)]
+			}
+		case ref.Map:
+			kind = "map"
+			estr += []string{".zz_missing", `["zz_missing"]`, ".zz_missing.k", `["zz_missing"][0]`, ".zz_missing[1]"}[r.IntN(5)]
+		default:
+			res.Nontrivial = false
+			return hold("read location is a scalar")
+		}
+		res.Tags = append(res.Tags, "rhsread:"+kind)
+		alt := gen.SimpleValue(r, 0)
+		var exprs []string
+		switch r.IntN(4) {
+		case 0:
+			exprs = []string{pstr + " = " + estr, pstr + " = null"}
+		case 1:
+			exprs = []string{pstr + " = (" + estr + " // " + ref.Lit(alt).String() + ")", pstr + " = " + ref.Lit(alt).String()}
+		case 2:
+			exprs = []string{pstr + " |= (" + estr + " // " + ref.Lit(alt).String() + ")", pstr + " = " + ref.Lit(alt).String()}
+			if !strings.HasPrefix(estr, ".") || creates || nested {
+				exprs[0] = pstr + " = (" + estr + " // " + ref.Lit(alt).String() + ")"
+			} else {
+				// inside |= the expression is relative to the match: bind the root first
+				exprs[0] = ". as $root | " + pstr + " |= ($root | " + estr + " // " + ref.Lit(alt).String() + ")"
+			}
+		default:
+			exprs = []string{"(" + estr + ") as $r | " + pstr + " = ($r // " + ref.Lit(alt).String() + ")", pstr + " = " + ref.Lit(alt).String()}
+		}
+		cs["expr"], cs["same_as"] = exprs[0], exprs[1]
+		res.Sig = fmt.Sprintf("rhsread|%s|%s|%x", kind, pathShape(path), doc.ShapeHash())
+		a, _, err1 := evalDoc(exprs[0], doc)
+		b, _, err2 := evalDoc(exprs[1], doc)
+		res.Evals += 2
+		if err2 != nil || b == nil {
+			res.Nontrivial = false
+			return hold("the plain assignment fails")
+		}
+		if err1 != nil {
+			return fail("`%s` fails (%v) although the right-hand side only reads and `%s` works", exprs[0], err1, exprs[1])
+		}
+		created := doc.Copy() // following p creates the missing locations (as null) even when nothing is assigned then
+		for _, t := range targets {
+			if t.Creates {
+				_ = ref.SetPath(created, t.Path, ref.NullV())
+			}
+		}
+		if a != nil && !strings.Contains(exprs[0], "//") && ref.EqualNum(a, created) {
+			// in a read-only context a missing thing yields no result instead of null: nothing is assigned
+			res.Tags = append(res.Tags, "rhsread:empty_rhs")
+			return hold("the read yields nothing, nothing assigned, nothing changed")
+		}
+		if a == nil || !ref.EqualNum(a, b) {
+			return fail("reading on the right-hand side changed the document: `%s` gives\n %s\nbut `%s` gives\n %s\n(the read `%s` yields null or nothing on %s)", exprs[0], a, exprs[1], b, estr, doc)
+		}
+		return hold("reads on the right-hand side leave everything else alone")
+
 	case "put":
 		expr := pstr + " = " + ref.Lit(v).String()
 		cs["expr"] = expr
@@ -273,6 +359,23 @@ func (p c02) Run(w *mon.Worker, idx int) mon.Result {
 				res.Verdict, res.Detail = mon.Held, "model: incompatible while writing"
 				res.Tags = append(res.Tags, "excluded_incompatible")
 				return res
+			}
+		}
+		if last := len(path.Steps) - 1; last >= 0 && path.Steps[last].Kind == "midx" && path.Steps[last].Idxs[0] < 0 && !ref.EqualNum(got, want) {
+			// `=` evaluates its left-hand side a second time after the padding: a negative index written
+			// before the padding index is then counted from the new end
+			alt := path
+			alt.Steps = append(append([]ref.Step{}, path.Steps[:last]...), ref.Step{Kind: "midx", Idxs: []int{path.Steps[last].Idxs[1], path.Steps[last].Idxs[0]}})
+			if ats, aerr := ref.Resolve(doc, alt, true); aerr == nil {
+				want2 := doc.Copy()
+				for _, t := range ats {
+					_ = ref.SetPath(want2, t.Path, v)
+				}
+				if ref.EqualNum(got, want2) {
+					res.Verdict, res.FindingID = mon.Finding, "C02-assign-negative-index-before-padding-index"
+					res.Detail = fmt.Sprintf("`%s` on %s: the negative index is resolved against the padded length\n expected %s\n observed %s", expr, doc, want, got)
+					return res
+				}
 			}
 		}
 		// (i) put-get on yq's own output, model-free apart from the target list
@@ -354,7 +457,8 @@ func (p c02) Run(w *mon.Worker, idx int) mon.Result {
 		return hold("put-put")
 
 	case "update":
-		if terr != nil || creates || len(targets) == 0 {
+		midx := len(path.Steps) > 0 && path.Steps[len(path.Steps)-1].Kind == "midx"
+		if terr != nil || (creates && !midx) || len(targets) == 0 {
 			res.Nontrivial = false
 			return hold("no existing location")
 		}
@@ -366,6 +470,11 @@ func (p c02) Run(w *mon.Worker, idx int) mon.Result {
 		want := doc.Copy()
 		var merr error
 		tr := &ref.Trace{}
+		for _, t := range targets {
+			if t.Creates { // following p pads the sequence with nulls first; f then sees a null there
+				_ = ref.SetPath(want, t.Path, ref.NullV())
+			}
+		}
 		for i := len(targets) - 1; i >= 0; i-- {
 			cur, ok := want.GetPath(targets[i].Path)
 			if !ok {
